@@ -398,6 +398,13 @@ fn exec_child(op: &str, args: &[Sexp]) -> Ans {
 				Err(e) => Ans::BadOp(e),
 			}
 		}
+		// `dyn_nodes_bounded`: one resolved loadable constant consists of at most 65536 constants (MAX_BOOTSTRAP_ARGUMENT_CONSTANTS)
+		("oracle-dyn-bounded", spec) => match run_dyn(spec) {
+			Ok(Outc::Ok(n)) => match n.as_nat() { Ok(n) if n <= 65536 => Ans::pass(), Ok(_) => Ans::fail("expansion"), Err(e) => Ans::BadOp(e) },
+			Ok(Outc::Panic(p)) => Ans::fail(&p),
+			Ok(Outc::Err) => Ans::pass(),
+			Err(e) => Ans::BadOp(e),
+		},
 		("readwrite", [b]) => {
 			let Ok(b) = b.as_bytes() else { return Ans::BadOp("bytes".into()) };
 			outc_ans(guarded(|| {
@@ -940,6 +947,24 @@ fn gen_wrapped(r: &mut Rng, tier: Tier, out: &mut Out) {
 	for d in 1..=(if tier == Tier::Thorough { 14 } else { 10 }) {
 		let spec: Vec<Sexp> = (0..=d).map(|i| if i < d { Sexp::list(vec![Sexp::nat(i + 1), Sexp::nat(i + 1)]) } else { Sexp::list(vec![]) }).collect();
 		out.op("dyn", &spec);
+	}
+	// the budget on the expansion (MAX_BOOTSTRAP_ARGUMENT_CONSTANTS = 65536): binary DAGs of depth 15 (65535 nodes: resolved) and 16
+	// (131071 nodes: an error since the repair), 1 + 255 + 255*255 = 65281 nodes (resolved), 1 + 256 + 256*256 (an error), and three
+	// levels listing the next constant 300 times (90301 nodes: an error; sixteen such levels asked the unrepaired reader for 300^16)
+	for d in [15usize, 16] {
+		let spec: Vec<Sexp> = (0..=d).map(|i| if i < d { Sexp::list(vec![Sexp::nat(i + 1), Sexp::nat(i + 1)]) } else { Sexp::list(vec![]) }).collect();
+		out.op("dyn", &spec);
+		out.op("oracle-dyn-bounded", &spec);
+	}
+	for k in [255usize, 256, 300] {
+		let spec = vec![Sexp::list(vec![Sexp::nat(1); k]), Sexp::list(vec![Sexp::nat(2); k]), Sexp::list(vec![])];
+		out.op("dyn", &spec);
+		out.op("oracle-dyn-bounded", &spec);
+	}
+	{
+		// sixteen levels with fan-out 4 (4^16 nodes unrepaired): the budget runs out after 65536 calls
+		let spec: Vec<Sexp> = (0..=16usize).map(|i| if i < 16 { Sexp::list(vec![Sexp::nat(i + 1); 4]) } else { Sexp::list(vec![]) }).collect();
+		out.op("oracle-dyn-bounded", &spec);
 	}
 	// descriptors for get_arguments_size through the writer
 	let alpha: Vec<u32> = "DJIL;[)(VZa/".chars().map(|c| c as u32).collect();
